@@ -65,24 +65,126 @@ MANIFEST = {
 NONTRIVIAL_REGIONS = {"handler", "else", "finally", "type", "mgr", "enter", "exit"}
 
 
+def _L(k, e=None):
+    return {"op": "L", "k": k, "e": e if e is not None else {"op": "lit", "v": 100 + k}}
+
+
+def _rd(n):
+    return {"op": "rd", "n": n}
+
+
+def _m(k, var=None, mode="plain", stmt=False, **kw):
+    return dict({"var": var, "k": k, "mode": mode, "stmt": stmt, "new": False}, **kw)
+
+
+def _try(i, b, hs=(), els=None, fin=None, **kw):
+    return dict({"op": "try", "id": i, "mb": None, "mf": None, "star": False, "b": b, "hs": list(hs),
+                 "else": els, "fin": fin}, **kw)
+
+
+def regression_programs():
+    """Witnesses of the repaired with/try mechanisms (`fixed` entries of known_findings.json)."""
+    out = []
+    # b1bccbf: (L 5 (with [_ (CM 2) m3 (do (setv tm3 3) (CM tm3))] (L 4 9)))
+    out.append(("with-later-manager-statements",
+                [_L(5, {"op": "with", "id": 1, "single": False,
+                        "ms": [_m(2), _m(3, "m3", stmt=True)], "b": [_L(4)]})]))
+    out.append(("with-later-manager-statements",
+                [{"op": "set", "n": "r1", "x": True,
+                  "e": {"op": "with", "id": 1, "single": False,
+                        "ms": [_m(1, "m1", "supp"), _m(2, None, stmt=True), _m(3, "m3", stmt=True)],
+                        "b": [_L(4, _rd("m3")), _L(5)]}}, _L(6, _rd("r1"))]))
+    # dfba9b8: (setv a (setx b (try 1 (finally 2)))) and the handler variant
+    out.append(("setx-try-temp-nameerror",
+                [{"op": "set", "n": "r1", "x": False,
+                  "e": {"op": "set", "n": "r2", "x": True, "e": _try(1, [_L(1)], fin=[_L(2)])}},
+                 _L(3, _rd("r2"))]))
+    out.append(("setx-try-temp-nameerror",
+                [{"op": "set", "n": "r1", "x": False,
+                  "e": {"op": "set", "n": "r2", "x": True,
+                        "e": _try(1, [_L(1)], [{"spec": {"form": "single", "types": ["ValueError"], "logk": None},
+                                                "var": None, "b": [_L(2)]}])}},
+                 _L(3, _rd("r1")), _L(4, _rd("r2"))]))
+    # 39e3b71: (setv v2 (try (setv v3 v2) 2 (finally (setv v1 v3) (setv v2 9))))
+    out.append(("try-finally-rename-aliasing",
+                [{"op": "set", "n": "r2", "x": False,
+                  "e": _try(1, [{"op": "set", "n": "r3", "x": False, "e": _L(1, _rd("r2"))}, _L(2)],
+                            fin=[{"op": "set", "n": "r1", "x": False, "e": _L(3, _rd("r3"))},
+                                 _L(4, _rd("r2")),
+                                 {"op": "set", "n": "r2", "x": False, "e": _L(5)}])},
+                 _L(6, _rd("r2")), _L(7, _rd("r1"))]))
+    # ff7eae6: (with [_ (CMS 1) m2 (CMS 2)] (L 3 103) (L 4 104)) + 3-manager and async variants
+    out.append(("with-value-kept-when-inner-exit-raises-and-outer-manager-suppresses",
+                [{"op": "with", "id": 1, "single": False, "ms": [_m(1, None, "supp"), _m(2, "m2", "supp")],
+                  "b": [_L(3), _L(4)]}]))
+    out.append(("with-value-kept-when-inner-exit-raises-and-outer-manager-suppresses",
+                [_L(6, {"op": "with", "id": 1, "single": False,
+                        "ms": [_m(1, "m1", "suppall"), _m(2, None), _m(3, "m3")], "b": [_L(4, _rd("m3")), _L(5)]})]))
+    return out
+
+
+def _case(prog, rng, tier, max_pairs, regress=None):
+    star = "try:except*" in F.features(prog)[0]
+    names = F.FAULT_NAMES + (F.GROUP_FAULTS if star else [])
+    py = F.render_py(prog, True)
+    n, singles, pairs = F.enumerate_plans(F.compile_py(py), rng, tier, max_pairs, names)
+    if n == 0:
+        return None
+    case = {"prog": prog, "hy": F.render_hy(prog), "py": py, "py_exc_reading": F.render_py(prog, False),
+            "nevents": n, "plans": [[]] + singles + pairs}
+    if regress:
+        case["regress"] = regress
+    return case
+
+
+def mix_case(rng):
+    """A `try` whose handlers mix `except` and `except*` (or do not): Hy must reject it with a
+    Hy syntax error exactly when Python rejects the twin with a SyntaxError."""
+    g = F.Gen09(rng, max_depth=1, budget=8)
+    sc = {"wvars": [], "hvars": [], "hbound": frozenset(), "in_handler": False, "in_fn": False}
+    t = g.try_form(0, sc)
+    while len(t["hs"]) < 2:
+        t["hs"].append({"spec": {"form": "single", "types": [rng.choice(F.HANDLER_TYPES)], "logk": None},
+                        "var": None, "b": [g.leaf()]})
+    for h in t["hs"]:
+        if h["spec"]["form"] == "all":
+            h["spec"] = {"form": "single", "types": ["Exception"], "logk": None}
+        h["star"] = rng.random() < 0.5
+    prog = {"ctx": rng.choice(["module", "fn"]), "forms": [t]}
+    return {"kind": "mix", "prog": prog, "hy": F.render_hy(prog), "py": F.render_py(prog, True)}
+
+
 def cases(seed, tier, shard, nshards):
-    i = 0
     max_pairs = 24 if tier == "quick" else 1500
+    # 1. deterministic regression section: witnesses of repaired mechanisms, every context,
+    #    all single-fault plans and pairs
+    j = 0
+    for key, forms in regression_programs():
+        for ctx in F.ALL_CTXS:
+            j += 1
+            if j % nshards != shard:
+                continue
+            c = _case({"ctx": ctx, "forms": forms}, rng_for(seed, ID, "regress", j), "thorough", 400, regress=key)
+            if c:
+                yield c
+    # 2. generated programs
+    i = 0
     while True:
         rng = rng_for(seed, ID, shard, i)
-        ctx = F.CTXS[i % 4] if rng.random() < 0.8 else rng.choice(F.CTXS)
         i += 1
-        prog = F.gen09(rng, ctx, max_depth=rng.choice([1, 2, 3, 3]))
-        py = F.render_py(prog, True)
-        n, singles, pairs = F.enumerate_plans(F.compile_py(py), rng, tier, max_pairs)
-        if n == 0:
+        if i % 16 == 0:
+            for _ in range(8):
+                yield mix_case(rng)
             continue
-        yield {"prog": prog, "hy": F.render_hy(prog), "py": py, "py_exc_reading": F.render_py(prog, False),
-               "nevents": n, "plans": [[]] + singles + pairs}
+        ctx = F.ALL_CTXS[i % 5] if rng.random() < 0.8 else rng.choice(F.ALL_CTXS)
+        prog = F.gen09(rng, ctx, max_depth=rng.choice([1, 2, 3, 3]), star=(i % 3 == 0))
+        c = _case(prog, rng, tier, max_pairs)
+        if c:
+            yield c
 
 
 def case_key(case):
-    return [case["hy"], case["plans"]]
+    return [case["hy"], case.get("plans")]
 
 
 def _cmp(got, ref, tries):
@@ -131,11 +233,53 @@ def check_plan(hy_code, py_code, py2_code, plan, tries):
     return why, info
 
 
+def run_mix(case):
+    prog = case["prog"]
+    flags = {bool(h.get("star")) for h in prog["forms"][0]["hs"]}
+    mixed = len(flags) == 2
+    res = {"ok": True, "nontrivial": mixed, "events": 0, "n": 1,
+           "classes": ["kind:except-mix", "mix:" + ("mixed" if mixed else "uniform-" + ("star" if True in flags else "plain"))]}
+    try:
+        F.compile_py(case["py"])
+        py_err = None
+    except SyntaxError as ex:
+        py_err = ex
+    try:
+        hy_code, _ = F.compile_hy_module(case["hy"])
+        hy_err = None
+    except BaseException as ex:
+        if type(ex).__name__ == "CaseTimeout":
+            raise
+        hy_err = ex
+    if py_err is not None:
+        import hy.errors
+        res["classes"].append("mix:python-syntax-error")
+        if hy_err is None:
+            res.update(ok=False, why=f"Python rejects the twin ({py_err.msg}) but Hy compiled: {case['hy'][:500]}")
+        elif not isinstance(hy_err, hy.errors.HyLanguageError):
+            res.update(ok=False, why=f"Python rejects the twin ({py_err.msg}); Hy raised {type(hy_err).__name__} "
+                                     f"instead of a Hy syntax error: {case['hy'][:500]}")
+    elif hy_err is not None:
+        res.update(ok=False, why=f"Python accepts the twin but Hy raised {type(hy_err).__name__}: "
+                                 f"{str(hy_err)[:300]}: {case['hy'][:500]}")
+    else:
+        # both compile: they must also run alike
+        why, info = check_plan(hy_code, F.compile_py(case["py"]), None, [], F.features(prog)[1])
+        res["events"] = len(info["got"]["events"])
+        if why:
+            res.update(ok=False, why=f"plan []: {why} [program: {case['hy'][:500]}]")
+    return res
+
+
 def run_case(case):
+    if case.get("kind") == "mix":
+        return run_mix(case)
     prog = case["prog"]
     feats, tries = F.features(prog)
     reg = F.regions(prog)
     classes = {"ctx:" + prog["ctx"]} | feats
+    if case.get("regress"):
+        classes.add("regress:" + case["regress"])
     res = {"ok": True, "nontrivial": False, "events": 0, "n": 0}
     try:
         hy_code, tree = F.compile_hy_module(case["hy"])
@@ -188,25 +332,35 @@ def run_case(case):
 FINDING_FLAT_WITH = "with-value-kept-when-inner-exit-raises-and-outer-manager-suppresses"
 
 
-def _attribute(case, bad):
-    """Mechanism attribution (BUILDING rule 2): every disagreeing plan has the feature -- a
-    fault landed in the __exit__ of a manager that shares one Python `with` statement with an
-    earlier manager -- AND agrees once only that feature is normalised away (each manager gets
-    its own `with` statement; no event added or removed, so the same plan applies)."""
-    prog = case["prog"]
-    sites = F.flat_later_exit_sites(prog)
-    if not sites or not all(any(str(s) in sites for s in landed) for _, _, landed in bad):
-        return None
-    p2 = F.normalise_flat_multi_with(prog)
+FINDING_STAR_RENAME = "try-exceptstar-result-renamed-to-assignment-target"
+
+
+def _recheck(p2, bad):
     try:
         hy2, _ = F.compile_hy_module(F.render_hy(p2))
     except Exception:
-        return None
+        return False
     py2 = F.compile_py(F.render_py(p2, True))
     py2b = F.compile_py(F.render_py(p2, False)) if F.has_all_handler(p2) else None
     _, tries = F.features(p2)
-    if all(check_plan(hy2, py2, py2b, plan, tries)[0] is None for plan, _, _ in bad):
-        return FINDING_FLAT_WITH
+    return all(check_plan(hy2, py2, py2b, plan, tries)[0] is None for plan, _, _ in bad)
+
+
+def _attribute(case, bad):
+    """Mechanism attribution (BUILDING rule 2): the case has the mechanism's input feature AND
+    every disagreeing plan agrees once only that feature is normalised away (the normalisers add
+    or remove no event, so the same plans apply)."""
+    prog = case["prog"]
+    # (a) a fault landed in the __exit__ of a manager that shares one Python `with` statement
+    #     with an earlier manager; normaliser: each manager gets its own `with` statement
+    sites = F.flat_later_exit_sites(prog)
+    if sites and all(any(str(s) in sites for s in landed) for _, _, landed in bad):
+        if _recheck(F.normalise_flat_multi_with(prog), bad):
+            return FINDING_FLAT_WITH
+    # (b) (setv/setx x (try ... (except* ...))) without finally; normaliser: add an empty (finally)
+    if F.feature_assigned_star_try(prog):
+        if _recheck(F.normalise_assigned_star_try(prog), bad):
+            return FINDING_STAR_RENAME
     return None
 
 
@@ -217,4 +371,9 @@ def gate(tot, classes, extra, tier):
         return "no-fault-landed-in-" + "+".join(missing)
     if not classes.get("plan:pair"):
         return "no-pair-plans"
+    need = ["try:except*", "op:raise-group", "fault-type:G:N", "mgr:async", "with:mixed-sync-async",
+            "mix:python-syntax-error", "ctx:afn"] + ["regress:" + k for k in sorted({k for k, _ in regression_programs()})]
+    missing = [c for c in need if not classes.get(c)]
+    if missing:
+        return "never-reached:" + "+".join(missing)
     return None
